@@ -97,11 +97,32 @@ theorem lsb_byte (b0 b1 b2 b3 b4 b5 b6 b7 : Bool) :
       [b0, b1, b2, b3, b4, b5, b6, b7] := by
   cases b0 <;> cases b1 <;> cases b2 <;> cases b3 <;> cases b4 <;> cases b5 <;> cases b6 <;> cases b7 <;> decide
 
-theorem encodeBits_nil : encodeBits [] = [] := by rw [encodeBits]; rfl
+theorem encodeBits_nil : encodeBits [] = [] := rfl
+
+theorem encodeBitsAux_fuel : ∀ (n m : Nat) (bits : List Bool), bits.length ≤ n → bits.length ≤ m →
+    encodeBitsAux n bits = encodeBitsAux m bits := by
+  intro n
+  induction n with
+  | zero =>
+    intro m bits hn _
+    have : bits = [] := List.eq_nil_of_length_eq_zero (by omega)
+    subst this
+    cases m <;> rfl
+  | succ n ih =>
+    intro m bits hn hm
+    cases bits with
+    | nil => cases m <;> rfl
+    | cons a l =>
+      cases m with
+      | zero => simp at hm
+      | succ m =>
+        simp only [encodeBitsAux, List.isEmpty_cons, Bool.false_eq_true, if_false]
+        rw [ih m _ (by simp at hn ⊢; omega) (by simp at hm ⊢; omega)]
 
 theorem encodeBits_cons (a : Bool) (l : List Bool) :
     encodeBits (a :: l) = byteOfBits (a :: l) :: encodeBits ((a :: l).drop 8) := by
-  rw [encodeBits]; rfl
+  simp only [encodeBits, List.length_cons, encodeBitsAux, List.isEmpty_cons, Bool.false_eq_true, if_false]
+  rw [encodeBitsAux_fuel l.length ((a :: l).drop 8).length _ (by simp) (Nat.le_refl _)]
 
 theorem encodeBits_length : ∀ (n : Nat) (bits : List Bool), bits.length ≤ n →
     (encodeBits bits).length = (bits.length + 7) / 8 := by
